@@ -7,7 +7,8 @@ use std::time::Instant;
 
 pub fn run(cfg: &Config) -> i32 {
 	let started = Instant::now();
-	let thorough = cfg.tier == Tier::Thorough;
+	let thorough = cfg.tier == Tier::Thorough && !cfg.san;
+	let small = if cfg.san { 1 } else { 0 };
 	let flags = Flags {
 		c12: true,
 		..Default::default()
@@ -18,7 +19,7 @@ pub fn run(cfg: &Config) -> i32 {
 	}
 	let mut add = |total: &mut Report, (r, _): (Report, Vec<u8>)| total.merge(r);
 	add(&mut total, pf::fam_surrogates(cfg, flags, if thorough { 6 } else { 4 }));
-	add(&mut total, pf::fam_sigma(cfg, flags, "sigma-c-strings", &crate::gen::SIGMA_C, if thorough { 5 } else { 4 }));
+	add(&mut total, pf::fam_sigma(cfg, flags, "sigma-c-strings", &crate::gen::SIGMA_C, if thorough { 5 } else { 4 - small }));
 	add(&mut total, pf::fam_sigma(cfg, flags, "sigma-t-token-sequences", &crate::gen::SIGMA_T, if thorough { 6 } else { 4 }));
 	add(&mut total, pf::fam_lexical(cfg, flags));
 	add(&mut total, pf::fam_corpus(cfg, flags, thorough));
@@ -39,7 +40,7 @@ pub fn run(cfg: &Config) -> i32 {
 		},
 		total,
 		started,
-		500_000,
+		if cfg.san { 50_000 } else { 500_000 },
 	)
 	.exit
 }
